@@ -21,7 +21,7 @@ ASSUMPTIONS = ['R model; one axis symbolic (y extents concrete)', 'separation ma
                'include-zero only when every module touches some cell (the constructor cannot represent a module with zero total area): '
                'such pre-states are discarded']
 NOT_DECIDED = ['terminals', 'modules whose own rectangles overlap (excluded by the property)', 'both axes symbolic']
-MUST_REACH = ['allocated', 'moved']
+MUST_REACH = ['allocated', 'moved', 'fp-ratio']
 BANDS = {'full': (0, 4), 'lower': (0, 1), 'middle': (1, 3), 'upper': (3, 4)}
 MODKINDS = ['soft0', 'soft1', 'soft2', 'hard1', 'hard2']
 
@@ -33,12 +33,43 @@ def setup():
 def reset():
     symx.ALLOW_STR = True
     shimall.reset_epsilon()
+    import frame.geometry.geometry as G
+    G.__dict__.pop('max', None)
+    G.__dict__.pop('min', None)
+
+
+def ctx_class(case):
+    if case.get('kind') == 'fp-ratio':
+        from fv import symf
+        return symf.FCtx
+    return None
+
+
+def body_fp_ratio(I, case):
+    """binary64 kernel: the occupancy ratio initial_allocation computes for a cell and one rectangle of a module,
+    cell.area_overlap(rect) / cell.area, executed on the real Rectangle code, never exceeds 1"""
+    import frame.geometry.geometry as G
+    from frame.geometry.geometry import Rectangle, Shape
+    # one axis symbolic (binary64), the other concrete and exact (unit height, both rectangles on the same row)
+    cx, cy = I.fp('cx', 0.0, 100.0), 0.5
+    w, h = I.fp('w', 0.01, 100.0), 1.0
+    mx, my = I.fp('mx', 0.0, 100.0), 0.5
+    mw, mh = I.fp('mw', 0.01, 200.0), 1.0
+    if I.mode == 'symbolic':
+        G.max, G.min = symx.sym_max, symx.sym_min   # if-then-else terms, same value as the builtins
+    cell = Rectangle(center=Point(cx, cy), shape=Shape(w, h))
+    mod = Rectangle(center=Point(mx, my), shape=Shape(mw, mh))
+    ov = cell.area_overlap(mod)
+    I.reached('fp-ratio')
+    # ov <= area implies the ratio ov / area computed by initial_allocation is <= 1 (correctly rounded division)
+    I.prove('overlap-area-at-most-cell-area(binary64)', ov <= cell.area)
+    I.prove('overlap-area-at-most-module-rectangle-area(binary64)', ov <= mod.area)
 
 
 def cases(tier):
     cs = []
     dies = [dict(region=None), dict(region=('#', 'lower')), dict(region=('fixed', 'full')), dict(region=('dsp', 'middle')),
-            dict(region=None, split=2), dict(region=('fixed', 'lower'), split=2)]
+            dict(region=None, split=2), dict(region=('fixed', 'lower'), split=2), dict(region=('fixed2', 'lower'))]
     combos = [['soft0'], ['soft1', 'hard1'], ['soft2', 'soft0'], ['hard2', 'soft1']]
     if tier == 'thorough':
         combos += [['soft0', 'soft1', 'hard1'], ['soft2', 'hard2', 'soft0']]
@@ -55,6 +86,7 @@ def cases(tier):
         for c in [['soft0'], ['soft1', 'hard1'], ['hard2', 'soft0']]:
             for sm in range(len(c)):
                 cs.append(dict(die=d, mods=c, zero=len(cs) % 2, area=2.25, symmod=sm, moved=True))
+    cs.append(dict(kind='fp-ratio'))
     return cs
 
 
@@ -62,6 +94,8 @@ OPTS = {'quick': dict(max_paths=40000, budget_s=280), 'thorough': dict(max_paths
 
 
 def body(I, case):
+    if case.get('kind') == 'fp-ratio':
+        return body_fp_ratio(I, case)
     if case.get('symdie'):
         g = [I.real(f'g{k}', 0.01, 30) for k in range(3)]
     else:
@@ -76,7 +110,13 @@ def body(I, case):
     if reg is not None:
         lo, hi = BANDS[reg[1]]
         spec = [(b1 + b2) / 2, (lo + hi) / 2.0, b2 - b1, float(hi - lo)]
-        if reg[0] == 'fixed':
+        if reg[0] == 'fixed2':   # a fixed module made of two separate rectangles (lower and upper band of the same columns)
+            lo2, hi2 = BANDS['upper']
+            spec2 = [(b1 + b2) / 2, (lo2 + hi2) / 2.0, b2 - b1, float(hi2 - lo2)]
+            mods['FX'] = {'fixed': True, 'rectangles': [spec, spec2]}
+            fixed_boxes += [geo.box(*spec), geo.box(*spec2)]
+            shapes['FX'] = [geo.box(*spec), geo.box(*spec2)]
+        elif reg[0] == 'fixed':
             mods['FX'] = {'fixed': True, 'rectangles': [spec]}
             fixed_boxes.append(geo.box(*spec))
             shapes['FX'] = [geo.box(*spec)]
